@@ -10,6 +10,7 @@
 import Mistletoe.Proofs.CoreTotal
 import Mistletoe.Proofs.EmphSpec
 import Mistletoe.Proofs.EmphRefine
+import Mistletoe.Proofs.EmphRefineEsc
 namespace Mistletoe.Props.C06
 open Mistletoe Mistletoe.Core
 
@@ -241,6 +242,24 @@ theorem C06_emphasis_is_spec_partial (s : Str) (fn : Footnotes.Table) (hp : Spec
       (∀ m ∈ ms, m.kind = .strong ∨ m.kind = .emphasis) ∧
       ms.map (fun m => (m.start, m.ts, m.te, m.stop, m.kind == .strong)) = Spec.Emphasis.spans s :=
   Mistletoe.EmphRefine.C06_emphasis_is_spec_partial s fn hp hw
+
+open Mistletoe.EmphRefine in
+/-- **… with backslash escapes** (`Spec/EmphasisEsc.lean`: after an unescaped backslash an ASCII punctuation character is
+    escaped, anything else leaves the backslash literal; delimiter runs are made of UNescaped `*`/`_` only; flanking reads the
+    source characters next to the run; the same *process emphasis*): for every text without backquote, brackets, `<`, `&`
+    - backslashes allowed - and without the eight exotic whitespace code points, the matches of `find_core_tokens` are, one
+    for one and in order, the specification's emphasis nodes. -/
+theorem C06_emphasis_is_spec_esc_partial (s : Str) (fn : Footnotes.Table) (hp : Spec.EmphasisEsc.plainEsc s = true) (hw : StdWs s) :
+    ∃ ms, findCoreTokens s fn = .ok (ms, []) ∧
+      ms = (Spec.EmphasisEsc.emphasisEsc s).map (toCoreM s) ∧
+      (∀ m ∈ ms, m.kind = .strong ∨ m.kind = .emphasis) ∧
+      ms.map (fun m => (m.start, m.ts, m.te, m.stop, m.kind == .strong)) = Spec.EmphasisEsc.spansEsc s :=
+  Mistletoe.EmphRefineEsc.C06_emphasis_is_spec_esc_partial s fn hp hw
+
+/-- the two specifications coincide on texts without backslash -/
+theorem C06_specs_coincide (s : Str) (hp : Spec.Emphasis.plain s = true) :
+    Spec.EmphasisEsc.emphasisEsc s = Spec.Emphasis.emphasis s :=
+  Mistletoe.EmphRefineEsc.emphasisEsc_plain s hp
 
 open Mistletoe.EmphRefine in
 /-- without the whitespace hypothesis: `find_core_tokens` is the specification's *process emphasis* run on the
